@@ -58,6 +58,7 @@ type Fn struct {
 	inlVars     map[types.Object]bool // parameters, results and locals of expanded helpers, result temporaries
 	tsClause    map[*ast.CaseClause]*ast.TypeSwitchStmt
 	preOf       map[ast.Node]nodeRef // node whose call was expanded -> where its evaluation starts
+	blockCalls  map[*cfg.Block][]*ast.CallExpr
 	liveIn    map[int32]map[types.Object]bool
 	locals    map[types.Object]bool
 	// PostFacts: formulas that hold right after the given CFG node (facts
@@ -123,7 +124,7 @@ func (e *Engine) prepare(info *types.Info, name string, node ast.Node, body *ast
 	f := &Fn{Eng: e, Info: info, Name: name, Node: node, Body: body, Type: typ,
 		volatile: map[types.Object]bool{}, addrTaken: map[types.Object]bool{}, where: map[ast.Node]nodeRef{}, whereAll: map[ast.Node][]nodeRef{}, preds: map[int32][]edge{},
 		synthetic: map[ast.Node]bool{}, retMarker: map[ast.Node]bool{}, inlAt: map[ast.Node][]*InlSite{}, inlCall: map[*ast.CallExpr]bool{},
-		rootBlock: map[*cfg.Block]bool{}, extraLocals: map[types.Object]bool{}, rangeBody: map[int32]map[int32]bool{}, preOf: map[ast.Node]nodeRef{}}
+		rootBlock: map[*cfg.Block]bool{}, extraLocals: map[types.Object]bool{}, rangeBody: map[int32]map[int32]bool{}, preOf: map[ast.Node]nodeRef{}, blockCalls: map[*cfg.Block][]*ast.CallExpr{}}
 	f.CFG = cfg.New(body, func(c *ast.CallExpr) bool { return !NoReturn(info, c) })
 	f.expand(pkg)
 	// variables assigned inside nested literals, and address-taken variables
